@@ -8,8 +8,8 @@ sorted temporaries), `pieces`, per-thread offset/length, merge back into the cal
 `std::sort`/`std::stable_sort` and the sequential `multiway_merge_base` are represented by their
 specifications (stable sort / first `len` elements of the stable merge; C05).  The lifetime ledger
 counts the element objects the sort itself constructs in raw storage and destroys.
-Elements are `C07.Elem` with `seq` = number of the thread whose slice holds the element and
-`pos` = index in the caller's range before the sort.
+Elements are `C07.Elem` with
+`pos` = index in the caller's range before the sort (the `seq` field is not used).
 -/
 import TlxVerif.Model.C07Pmm
 namespace TlxVerif.C06
@@ -41,6 +41,22 @@ def startsOf (n p : Nat) : List Nat :=
     | 0 => acc ++ [start]
     | fuel + 1 => go fuel (i + 1) (start + (if i < split then chunk + 1 else chunk)) (acc ++ [start])
   go p 0 0 []
+
+/-- the slices `[b_t, b_{t+1})` of the caller's range for consecutive boundaries -/
+def slicesBy (input : List Elem) : List Nat → List (List Elem)
+  | a :: b :: rest => (input.drop a).take (b - a) :: slicesBy input (b :: rest)
+  | _ => []
+
+/-- (start, length) of the slices -/
+def windowsBy : List Nat → List (Nat × Nat)
+  | a :: b :: rest => (a, b - a) :: windowsBy (b :: rest)
+  | _ => []
+
+/-- lifetime ledger of the temporaries: every thread constructs `length_local` element objects in raw
+storage (`std::uninitialized_copy`) and — after `fix: parallel_mergesort never destroyed …` — destroys
+`length_local` objects before releasing the storage.  Returns (constructed, destroyed). -/
+def ledger (starts : List Nat) : Nat × Nat :=
+  (((windowsBy starts).map (·.2)).foldl (· + ·) 0, ((windowsBy starts).map (·.2)).foldl (· + ·) 0)
 
 /-- `std::lower_bound(first, last, v, comp) - first` on a sorted run -/
 def lowerBound (lt : Int → Int → Bool) (run : List Elem) (v : Int) : Nat :=
@@ -111,7 +127,7 @@ def slicePiece (run : List Elem) (c : Piece) : R (List Elem) :=
   if c.b < 0 || c.e < c.b || c.e > run.length then throw "piece is not a sub-range of its sequence"
   else pure ((run.drop c.b.toNat).take (c.e - c.b).toNat)
 
-/-- `parallel_mergesort_base<Stable>`; `input` carries `pos` = index, `seq` is overwritten -/
+/-- `parallel_mergesort_base<Stable>`; `input` carries `pos` = index -/
 def pmsort (P : Params) (input : List Elem) : R Result := do
   let n := input.length
   if n ≤ 1 then
@@ -119,17 +135,10 @@ def pmsort (P : Params) (input : List Elem) : R Result := do
   if P.threads == 0 then throw "zero threads"
   let p := if P.threads > n then n else P.threads
   let starts := startsOf n p
-  -- local sort of every slice in its temporary (uninitialized_copy: one construction per element)
-  let mut temps : List (List Elem) := []
-  let mut cw : List (Nat × Nat) := []
-  let mut constructed := 0
-  for iam in List.range p do
-    let st := starts.getD iam 0
-    let len := starts.getD (iam + 1) 0 - st
-    let slice := ((input.drop st).take len).map fun e => { e with seq := iam }
-    temps := temps ++ [kMerge P.lt [slice]]
-    cw := cw ++ [(st, len)]
-    constructed := constructed + len
+  -- local sort of every slice in its temporary (uninitialized_copy, then std::(stable_)sort = stable sort
+  -- up to the order of equivalent keys)
+  let temps : List (List Elem) := (slicesBy input starts).map fun slice => kMerge P.lt [slice]
+  let cw := windowsBy starts
   let pieces ← if P.exact then exactPieces P temps starts p else samplingPieces P input temps starts p
   -- merge directly to target
   let mut wins : List (Int × List Elem) := []
@@ -148,10 +157,7 @@ def pmsort (P : Params) (input : List Elem) : R Result := do
     mw := mw ++ [(offset, lengthAm)]
     wins := wins ++ [(offset, kMergeTake P.lt parts lengthAm.toNat)]
   let out ← assemble n wins
-  -- (after `fix: parallel_mergesort never destroyed …`) every thread destroys its `length_local` copies
-  let mut destroyed := 0
-  for iam in List.range p do
-    destroyed := destroyed + (starts.getD (iam + 1) 0 - starts.getD iam 0)
+  let (constructed, destroyed) := ledger starts
   return { out := out, copyWindows := cw, mergeWindows := mw, constructed := constructed, destroyed := destroyed }
 
 end TlxVerif.C06
